@@ -1,6 +1,8 @@
 """C10 — path decomposition and queries follow the C++17 std::filesystem::path model.
 
 cases:  "P <hex>" (a path string) | "N" (NULL, queries only)
+        | "B <chunks> <tailhex>" ('x' * (chunks * 64 MiB) + tail, i.e. longer than 4 GiB, in a separate unsanitized
+          helper; expected line derived from the model/spec line of the short stand-in 'xxx' + tail)
         | "Q <hex1> <hex2>" (the same buffer holding string 1, then rewritten in place to string 2: every function is
           called before and after the rewrite inside one C function of the -O2 driver; each call must answer for the
           string it sees, which is what a declaration promising too much -- __attribute__((const)) -- breaks)
@@ -13,6 +15,7 @@ The Coq spec itself is validated against libstdc++ (harness/std_path_c10.cpp) on
 bug (the check fails as such), never a property violation."""
 import itertools
 import os
+import re
 
 import vlib
 
@@ -23,6 +26,9 @@ RULE = ("every string over {'/','.','a','b'} up to length 7 (quick) / 10 plus ev
         "pair of strings up to length 3 (quick) / 4 (thorough) over the same alphabet + random longer pairs); non-trivial = a string containing a "
         "separator or a dot; distinct case strings counted")
 ASSUMPTIONS = [
+    "64-bit size_t and full-width index fields (ZixIndexRange.begin/end, ZixStringView.length) are asserted at "
+    "compile time by the driver and exercised by strings of 2^32 + k bytes (1 in quick, 8 in thorough); if the "
+    "4 GiB mapping is impossible the case is SKIPped and a note is written",
     "POSIX build of path.c (the #else branch: '/' is the only separator, root_name is always empty); the _WIN32 "
     "branch is not modelled",
     "size_t arithmetic is modelled in Z without wrap-around: the only sums stay below 2*len+2, so no wrap for any "
@@ -45,6 +51,8 @@ def P(bs):
 def bytes_of(case):
     """the string of a P case; for a Q case the two strings joined by a NUL (statistics only)"""
     t = case.split()
+    if t[0] == "B":
+        return b"x/" + (b"" if t[2] == "-" else bytes.fromhex(t[2]))
     if t[0] == "Q":
         return b"\0".join(b"" if h == "-" else bytes.fromhex(h) for h in t[1:3])
     if t[0] != "P" or t[1] == "-":
@@ -114,7 +122,20 @@ def _stale(target, sources):
 
 def build(ctx):
     # -O2 (overrides vlib's -O1): the rewritten-buffer probe needs an optimising caller
-    ctx.build_driver("drv_c10", ["path.c", "string_view.c", "allocator.c"], flags=["-O2"])
+    try:
+        ctx.build_driver("drv_c10", ["path.c", "string_view.c", "allocator.c"], flags=["-O2"])
+    except vlib.BuildError as e:
+        m = re.search(r"C10 layout: [^\n\"]*", str(e))
+        if not m:
+            raise
+        # an index field is narrower than size_t: the tie between the unbounded-index model and the code is broken.
+        # Report it and build without the assertion so that the search can still look for a failing input.
+        ctx.broken.append("correspondence:layout " + m.group(0))
+        ctx.build_driver("drv_c10", ["path.c", "string_view.c", "allocator.c"], flags=["-O2", "-DC10_NO_LAYOUT_ASSERT"])
+    # the > 4 GiB string runs in its own, NOT sanitized binary
+    ctx.cc([os.path.join(vlib.HARNESS, "big_c10.c")] + ctx.repo_src("path.c", "string_view.c", "allocator.c"),
+           ctx.path("big_c10"), flags=["-O2"], sanitize=False)
+    ctx.c10_big_skipped = False
     for b in declaration_mismatches(vlib.REPO):
         ctx.broken.append("correspondence:declaration " + b)
     ctx.cc([os.path.join(vlib.HARNESS, "std_path_c10.cpp")], ctx.path("std_path_c10"), cxx=True, sanitize=False)
@@ -190,6 +211,65 @@ def patterns():
     return out
 
 
+BIG_K = 3          # the short stand-in has 3 'x' where the big string has BIG_CHUNKS * 64 MiB of them
+BIG_CHUNKS = 64    # 64 * 64 MiB = 2^32
+BIG_TAILS = [b"/name.txt", b"", b"/", b"//a", b".txt", b"/.a", b"/a/", b"/a//b.c.d"]
+
+
+def B(tail):
+    return "B %d %s" % (BIG_CHUNKS, P(tail)[2:])
+
+
+def big_cases(tier):
+    """strings longer than 4 GiB ('x' * 2^32 + tail): no index may be narrower than size_t"""
+    return [B(t) for t in (BIG_TAILS if tier == "thorough" else BIG_TAILS[:1])]
+
+
+def _standin_filler(tail):
+    """a name character that does not occur in the tail (spec and model only ever test for '/' and '.')"""
+    return next(b for b in b"XYZWVUTSRQ" if b not in tail)
+
+
+def _big_expected(small_line, n, filler):
+    """expected line for 'x'*n + tail from the model/spec line for filler*BIG_K + tail: the run is one block of
+    name characters, so every view boundary is 0 or lies at/after the end of the run"""
+    fh = "%02x" % filler
+    def text(v):
+        if v in ("-", "OOB", "NOFUEL"):
+            return v
+        bs = [v[i:i + 2] for i in range(0, len(v), 2)]
+        c = bs.count(fh)
+        if c == 0:
+            return v
+        i = bs.index(fh)
+        if c != BIG_K or bs[i:i + BIG_K] != [fh] * BIG_K:
+            raise RuntimeError("big-string expectation: a view cuts the 'x' run: " + v)
+        return "".join(bs[:i]) + "(78*%d)" % n + "".join(bs[i + BIG_K:])
+
+    def endpoint(e):
+        if e == 0:
+            return 0
+        if e < BIG_K:
+            raise RuntimeError("big-string expectation: a view boundary inside the 'x' run")
+        return e + n - BIG_K
+
+    def struct(v):
+        if "+" not in v or v.startswith("ext"):
+            return v
+        o, l = map(int, v.split("+"))
+        a, b = endpoint(o), endpoint(o + l)
+        return "%d+%d" % (a, b - a)
+    parts = small_line.split(" || ")
+    out = []
+    for t in parts[0].split():
+        k, _, v = t.partition("=")
+        out.append(t if k in ("q", "in") else k + "=" + text(v))
+    res = " ".join(out)
+    if len(parts) > 1:
+        res += " || " + " ".join(k + "=" + struct(v) for k, _, v in (t.partition("=") for t in parts[1].split()))
+    return res
+
+
 def gen(ctx, seed, tier):
     r = ctx.rng("gen", seed)
     if seed != ctx.seed:                      # extra seeds of the search: the random part only
@@ -201,16 +281,19 @@ def gen(ctx, seed, tier):
         cases += patterns()
         cases += rand_cases(r, 20000, 300)
         cases += pair_cases(r, 4, 20000)
+        cases += big_cases(tier)
     else:
         cases += list(enum(ALPHA4, 0, 7))
         cases += patterns()
         cases += rand_cases(r, 2000, 300)
         cases += pair_cases(r, 3, 2000)
+        cases += big_cases(tier)
     return cases
 
 
 def targeted(ctx):
-    return ["N"] + patterns() + list(enum(ALPHA3, 0, 8)) + pair_cases(ctx.rng("targeted"), 2, 3000)
+    return ["N"] + patterns() + list(enum(ALPHA3, 0, 8)) + pair_cases(ctx.rng("targeted"), 2, 3000) + \
+        big_cases("thorough")
 
 
 def corpus(ctx):
@@ -224,6 +307,22 @@ def run_impl(ctx, cases):
     """the driver flushes every completed line, so after a crash (ASan/UBSan report, signal) the number of
     lines received tells which case was being processed; that case gets a CRASH line and the run resumes
     behind it (at most 100 times, then the rest is marked)"""
+    if any(c.startswith("B ") for c in cases):
+        small = [c for c in cases if not c.startswith("B ")]
+        small_out = iter(run_impl(ctx, small) if small else [])
+        out = []
+        for c in cases:
+            if not c.startswith("B "):
+                out.append(next(small_out))
+                continue
+            rc, o, err = ctx.run_lines([ctx.path("big_c10")], [c], timeout=300)
+            line = o[0] if (rc == 0 and o) else "CRASH rc=%d %s" % (rc, err.strip().split("\n")[0][:120] if err.strip() else "")
+            if line == "SKIP":
+                ctx.c10_big_skipped = True
+                if "big-string case skipped" not in " ".join(ctx.notes):
+                    ctx.notes.append("big-string case skipped: the helper could not map 4 GiB of address space")
+            out.append(line)
+        return out
     res = []
     rest = list(cases)
     restarts = 0
@@ -265,6 +364,22 @@ def _oracle(ctx, cases, spec):
 
 
 def run_model(ctx, cases):
+    bigs = [i for i, c in enumerate(cases) if c.startswith("B ")]
+    if bigs:
+        standin = list(cases)
+        for i in bigs:
+            tail = cases[i].split()[2]
+            tail = b"" if tail == "-" else bytes.fromhex(tail)
+            standin[i] = P(bytes([_standin_filler(tail)]) * BIG_K + tail)
+        ms, ss = run_model(ctx, standin)
+        for i in bigs:
+            if getattr(ctx, "c10_big_skipped", False):
+                ms[i], ss[i] = "SKIP", "SKIP"
+            else:
+                n = int(cases[i].split()[1]) * (64 << 20)
+                f = bytes_of(standin[i])[0]
+                ms[i], ss[i] = _big_expected(ms[i], n, f), _big_expected(ss[i], n, f)
+        return ms, ss
     ms, ss = ctx.run_model("drv_c10", cases, timeout=1200)
     if len(cases) >= 50:
         if ctx.tier == "thorough":
@@ -282,13 +397,13 @@ def nontrivial(c):
 
 
 def tokens(case):
-    if case == "N" or case.startswith("Q "):
+    if case == "N" or case.startswith("Q ") or case.startswith("B "):
         return [case]                      # not shrunk
     return ["%02x" % b for b in bytes_of(case)]
 
 
 def untokens(toks):
-    if len(toks) == 1 and (toks[0] == "N" or toks[0].startswith("Q ")):
+    if len(toks) == 1 and (toks[0] == "N" or toks[0][:2] in ("Q ", "B ")):
         return toks[0]
     return "P " + ("".join(toks) or "-")
 
@@ -302,6 +417,9 @@ def stats(cases, impl):
             continue
         if c.startswith("Q "):
             d["rewritten_buffer_pairs"] += 1
+            continue
+        if c.startswith("B "):
+            d["strings_over_4GiB"] = d.get("strings_over_4GiB", 0) + 1
             continue
         b = bytes_of(c)
         d["rooted"] += b.startswith(b"/")
